@@ -43,6 +43,13 @@ pub fn reg_user(loc: &str, red1: Option<(f32, f32, f32)>, red2: Option<(f32, f32
     .expect("regulatory factors")
 }
 
+/// the same regulatory set prepared from its own text (a saved factors file, which already has RED1 / RED2 lines)
+/// with the user's values given on top
+pub fn reg_user_from_text(loc: &str, red1: Option<(f32, f32, f32)>, red2: Option<(f32, f32, f32)>) -> Option<Factors> {
+    let text = format!("{}", fset(loc));
+    cte::wfactors_from_str(&text, UserWF { red1: red1.map(Into::into), red2: red2.map(Into::into) }, cte::CTE_USERWF).ok()
+}
+
 const CARRIERS: [&str; 12] = [
     "ELECTRICIDAD", "GASNATURAL", "BIOMASA", "BIOMASADENSIFICADA", "EAMBIENTE", "TERMOSOLAR", "RED1", "RED2", "GASOLEO", "GLP", "CARBON",
     "BIOCARBURANTE",
